@@ -56,6 +56,7 @@ type Result struct {
 	ParseLine   string
 	ParseLine0  string // parse with nil options (the wuffs-c path), single-file cases
 	ExprLine    string // parse.ParseExpr on the primary file's tokens
+	ASTHeight   int    // nodes on the longest root-to-leaf path of the parsed primary file (0 = not parsed)
 	Accepted    bool
 	C           []byte
 	NTokens     int
@@ -155,6 +156,42 @@ func panicSite() string {
 	return "unknown"
 }
 
+// astHeight is Props/C11.lean's `Parse.height` on the real tree: the number of nodes on the
+// longest root-to-leaf path (computed with an explicit stack: the point is that recursion
+// over an arbitrarily deep tree is what must not be needed).
+func astHeight(root *a.Node) int {
+	type item struct {
+		n *a.Node
+		d int
+	}
+	best := 0
+	stack := []item{{root, 1}}
+	for len(stack) > 0 {
+		it := stack[len(stack)-1]
+		stack = stack[:len(stack)-1]
+		if it.n == nil {
+			continue
+		}
+		if it.d > best {
+			best = it.d
+		}
+		r := it.n.AsRaw()
+		for _, o := range r.SubNodes() {
+			if o != nil {
+				stack = append(stack, item{o, it.d + 1})
+			}
+		}
+		for _, l := range r.SubLists() {
+			for _, o := range l {
+				if o != nil {
+					stack = append(stack, item{o, it.d + 1})
+				}
+			}
+		}
+	}
+	return best
+}
+
 type progressFunc func(stage string)
 
 func runStage(name string, res *Result, progress progressFunc, f func() error) (ok bool) {
@@ -242,6 +279,9 @@ func runCase(c *Case, progress progressFunc) *Result {
 				} else {
 					res.ParseLine = parseLine(tm, file, perr, f.Name)
 				}
+			}
+			if parseOK {
+				res.ASTHeight = astHeight(file.AsNode())
 			}
 			if parseOK {
 				// cmd/wuffsfmt renders into a bytes.Buffer; here the bytes are only
